@@ -206,6 +206,11 @@ func c10Responses(t *core.Tape, w *world.World) []struct {
 		{"bad-hex", []byte(g(strings.Replace(qe, `"miscselect":"`, `"miscselect":"zz`, 1)))},
 		{"empty-hex-fields", []byte(g(`{"id":"TD_QE","version":2,"miscselect":"","miscselectMask":"","attributes":"","attributesMask":"","mrsigner":"","isvprodid":1,"tcbLevels":[{"tcb":{"isvsvn":1},"tcbStatus":"UpToDate"}],"nextUpdate":"2999-01-01T00:00:00Z"}`))},
 		{"bad-status", []byte(g(`{"id":"TDX","version":3,"tcbLevels":[{"tcb":{},"tcbStatus":"Whatever"}]}`))},
+		{"hex-field-is-digit", []byte(g(`{"id":"TDX","version":3,"tdxModule":{"mrsigner":0,"attributes":7,"attributesMask":1},"miscselect":0,"mrsigner":5}`))},
+		{"hex-field-is-number", []byte(g(`{"id":"TDX","version":3,"tdxModule":{"mrsigner":12,"attributes":-1,"attributesMask":1.5},"miscselect":10,"attributes":123456}`))},
+		{"hex-field-is-other-kind", []byte(g(`{"id":"TDX","version":3,"tdxModule":{"mrsigner":[],"attributes":{},"attributesMask":true},"miscselect":null,"miscselectMask":false,"attributes":[1],"mrsigner":{"a":1}}`))},
+		{"hex-field-is-short-string", []byte(g(`{"id":"TDX","version":3,"tdxModule":{"mrsigner":"","attributes":"0","attributesMask":"\""},"miscselect":"a","mrsigner":"\u0000"}`))},
+		{"status-field-is-digit", []byte(g(`{"id":"TDX","version":3,"tcbLevels":[{"tcb":{},"tcbStatus":0},{"tcbStatus":[]},{"tcbStatus":""}]}`))},
 		{"bad-dates", []byte(g(`{"id":"TDX","version":3,"issueDate":"yesterday","nextUpdate":"9999999-99-99T99:99:99Z"}`))},
 		{"utf8-garbage-keys", []byte("{\"\xff\xfe\":1,\"tcbInfo\":{},\"signature\":\"\"}")},
 		{"truncated-genuine", w.PCS.QE.Body[:len(w.PCS.QE.Body)/2]},
